@@ -31,6 +31,7 @@ type cev struct {
 	inst, pos, commit, index int
 	merge                    bool
 	deps                     map[int]string
+	lin                      []int // commits this instance (or the instances it was forked from / merged with) consumed before
 }
 
 type world struct {
@@ -40,6 +41,7 @@ type world struct {
 	log        []string
 	cc, hc, bc []int
 	specs      []spec // by position in resolved order
+	lin        map[int]map[int]bool // lineage per instance: what it and its fork origins / merge partners consumed
 	cidx       map[plumbing.Hash]int
 }
 
@@ -92,7 +94,19 @@ func (r *rec) Consume(deps map[string]interface{}) (map[string]interface{}, erro
 			dm[e] = "nil"
 		}
 	}
-	w.cevs = append(w.cevs, cev{r.inst, r.pos, c, deps[core.DependencyIndex].(int), m == 1, dm})
+	var before []int
+	if w.lin == nil {
+		w.lin = map[int]map[int]bool{}
+	}
+	for x := range w.lin[r.inst] {
+		before = append(before, x)
+	}
+	sort.Ints(before)
+	if w.lin[r.inst] == nil {
+		w.lin[r.inst] = map[int]bool{}
+	}
+	w.lin[r.inst][c] = true
+	w.cevs = append(w.cevs, cev{r.inst, r.pos, c, deps[core.DependencyIndex].(int), m == 1, dm, before})
 	w.log = append(w.log, fmt.Sprintf("C%d:%d:%d:%d:%s", r.inst, c, deps[core.DependencyIndex].(int), m, strings.Join(ds, ",")))
 	if s.cfail == k {
 		w.triggered = append(w.triggered, "consume-error")
@@ -116,6 +130,14 @@ func (r *rec) forkIDs(n int) []int {
 		} else {
 			ids[i] = r.w.next
 			r.w.next++
+			if r.w.lin == nil {
+				r.w.lin = map[int]map[int]bool{}
+			}
+			cp := map[int]bool{}
+			for x := range r.w.lin[r.inst] {
+				cp[x] = true
+			}
+			r.w.lin[ids[i]] = cp
 		}
 	}
 	r.w.log = append(r.w.log, fmt.Sprintf("F%d>%s", r.inst, lst(ids)))
@@ -129,6 +151,24 @@ func lst(ids []int) string {
 	return "[" + strings.Join(ss, ", ") + "]"
 }
 func (r *rec) logMerge(others []int) {
+	if !r.sp().shared {
+		if r.w.lin == nil {
+			r.w.lin = map[int]map[int]bool{}
+		}
+		u := map[int]bool{}
+		for _, o := range append([]int{r.inst}, others...) {
+			for x := range r.w.lin[o] {
+				u[x] = true
+			}
+		}
+		for _, o := range append([]int{r.inst}, others...) {
+			cp := map[int]bool{}
+			for x := range u {
+				cp[x] = true
+			}
+			r.w.lin[o] = cp
+		}
+	}
 	r.w.log = append(r.w.log, fmt.Sprintf("M%d<%s", r.inst, lst(others)))
 }
 
@@ -413,8 +453,12 @@ func main() {
 			outcome = fmt.Sprintf("ok %d %d %d [%s]", common.BeginTime, common.EndTime, common.CommitsNumber, strings.Join(fs, ", "))
 		}
 		fmt.Fprintf(wi, "%s => %s\n", strings.Join(w.log, " "), outcome)
-		if cls, what := oracle(w, plan, times, n, ni, err, res); what != "" {
-			if cls == "run-log" && hasRedundantEdge(parents) {
+		cls, what := oracle(w, plan, times, n, ni, err, res)
+		if what == "" {
+			cls, what = lineageOracle(w, parents)
+		}
+		if what != "" {
+			if (cls == "run-log" || cls == "run-lineage") && hasRedundantEdge(parents) {
 				// the plan itself is in a known-finding class of C02 (extra replay / dropped merge on graphs with a
 				// fast-forward parent edge): replays of a merge commit are then not adjacent and the merge flag is off
 				cls = "redundant-parent-edge"
@@ -532,6 +576,46 @@ func (w *world) ccAt(k, pos int) int {
 		}
 	}
 	return cnt
+}
+
+// lineageOracle states C02 on the execution: every replay of a commit by a mergeable, per-branch item instance
+// happens on an instance whose lineage (what it, its fork origins and its merge partners consumed so far) is
+// exactly one parent of the commit together with that parent's ancestors - or nothing at all for a root commit.
+func lineageOracle(w *world, parents [][]int) (string, string) {
+	anc := make([]map[int]bool, len(parents))
+	for i := range parents {
+		anc[i] = map[int]bool{i: true}
+		for _, p := range parents[i] {
+			for a := range anc[p] {
+				anc[i][a] = true
+			}
+		}
+	}
+	for _, e := range w.cevs {
+		sp := w.specs[e.pos]
+		if !sp.full || sp.shared {
+			continue
+		}
+		ok := len(parents[e.commit]) == 0 && len(e.lin) == 0
+		for _, p := range parents[e.commit] {
+			if len(e.lin) == len(anc[p]) {
+				same := true
+				for _, x := range e.lin {
+					if !anc[p][x] {
+						same = false
+					}
+				}
+				if same {
+					ok = true
+				}
+			}
+		}
+		if !ok {
+			return "run-lineage", fmt.Sprintf("commit %d (parents %v) was replayed on an instance of item %d that had consumed %v: not the ancestry of one of its parents",
+				e.commit, parents[e.commit], e.pos, e.lin)
+		}
+	}
+	return "", ""
 }
 
 func hasRedundantEdge(parents [][]int) bool {
